@@ -202,6 +202,12 @@ class Lagrange(Interpolator, StringSerializable):
                 if Nx_new > Nx_old:
                     weights[var] = np.pad(weights[var], [(0, Nx_new - Nx_old)], mode='constant', constant_values=np.nan)
                     C = (bds[1] - bds[0]) / self.interval_capacity
+                    if Nx_old > 1:
+                        # The old weights carry the capacity of the domain at the time they were computed; if the domain
+                        # has changed since (e.g. updated coupling variable bounds), rescale them by the common factor
+                        # that makes them consistent with the current capacity before extending them
+                        w0 = 1.0 / np.prod((grid[0] - grid[1:Nx_old]) / C)
+                        weights[var][:Nx_old] *= w0 / weights[var][0]
                     for j in range(Nx_old, Nx_new):
                         weights[var][:j] *= (C / (grid[:j] - grid[j]))
                         weights[var][j] = np.prod(C / (grid[j] - grid[:j]))
